@@ -46,8 +46,10 @@ def main(pid, path):
     p = subprocess.run([os.path.join(VERIF, 'bin', 'check'), pid, '--tier', 'quick'], stdout=subprocess.PIPE,
                        stderr=subprocess.DEVNULL, text=True, env=env)
     names = set(o['obligation'] for o in rep.get('failed_obligations', []))
-    failing_now = [l for l in p.stdout.split('\n') if l.startswith('failed obligation: ')]
-    same = [l for l in failing_now if any(l[len('failed obligation: '):].startswith(n) for n in names)]
+    failing_now = [l for l in p.stdout.split('\n') if l.startswith(('failed obligation: ', 'undischarged: ', 'supporting obligation failed: '))]
+    def body(l):
+        return l.split(': ', 1)[1]
+    same = [l for l in failing_now if any(body(l)[:60] in n or n.split('/')[0].strip() in body(l) for n in names)]
     if same:
         still = True
         print('obligations that still fail:')
